@@ -304,6 +304,16 @@ def _gen_round(rng, quick: bool, lim: Dict, rnd: int) -> List[Dict]:
             add("vsplit", [P(shape)], {"sections": 2 if shape[0] % 2 == 0 else 1})
         if nd >= 3:
             add("dsplit", [P(shape)], {"sections": 2})
+    for shape in [(2, 2), (2, 4), (2, 2, 2)]:
+        for f in ("hsplit", "vsplit", "dsplit", "split", "array_split"):
+            if f == "dsplit" and len(shape) < 3:
+                continue
+            sp = dict(P(shape, nterms=2), pre=["pickle"])
+            sp.pop("view", None)
+            if f in ("split", "array_split"):
+                add(f, [sp], {"sections": 2, "axis": 0}, tag="-idx-pickled")
+            else:
+                add(f, [sp], {"sections": 2}, tag="-idx-pickled")
     # diag / diagonal incl. single-row matrices
     for shape in [(3,), (1,), (2, 2), (1, 3), (3, 1), (2, 3), (1, 1)]:
         for k in (-2, -1, 0, 1, 2):
@@ -377,7 +387,8 @@ def _gen_round(rng, quick: bool, lim: Dict, rnd: int) -> List[Dict]:
     }
     for shape, idxs in index_cases.items():
         for ix in idxs:
-            add("getitem", [P(shape)], {"index": ix})
+            # (advanced indices -- where numpy decides the placement of the broadcast axis -- are kept in every quick sample)
+            add("getitem", [P(shape)], {"index": ix}, tag="-idx-adv" if isinstance(ix, list) and ix[0] == "tuple" and any(isinstance(t, list) and t[0] == "arr" for t in ix[1:]) else "")
     if quick:
         # keep the quick tier within budget: seeded sample of the catalogue, every function kept at least 3 times
         byfn: Dict[str, List[Dict]] = {}
